@@ -63,7 +63,7 @@ def run(chk):
         chk.cov["evaluations"] += 1
         desc = {"scope": c["scope"], "relation": relkey(c), "insts": [i["name"] for i in c["insts"]]}
         oc = q.get("outcome")
-        if oc in ("panic", "abort", "timeout"):
+        if oc in ("panic", "abort", "timeout", "not-run"):
             chk.violation(f"placer-{oc}:{'cyclic' if c['cyclic'] else relkey(c)}", "Placer::place", desc, {"msg": q.get("msg"), "loc": q.get("loc")})
             continue
         if c["cyclic"]:
